@@ -204,10 +204,10 @@ func runProperty(repo, verif, cmd, id, tier string, verbose bool, filter string,
 		}
 	}
 	tGen := time.Since(t0).Seconds() - tLoad
-	timeoutS := 30
+	timeoutS := 60
 	all := false
 	if tier == "thorough" {
-		timeoutS = 120
+		timeoutS = 180
 		all = true
 	}
 	if timeoutFlag > 0 {
